@@ -55,6 +55,9 @@ POOL = [
 # the same identifiers (x, y, f, g, K) in *different roles* across programs: any memo / cache keyed by a bare name,
 # by a line number or by a node position that survives a conversion shows up as a differing result
 POOL += [
+    # private names: the mangling pre-pass rewrites the tree in place (anything that keeps a tree between calls is exposed)
+    "class C:\n    __v = 2\n    def __h(self, __a=1):\n        return self.__v + __a\n    class __B:\n        __w = 3\n        def get(self):\n            return self.__w\n    def m(self):\n        return self.__h(), self.__B().get(), self.__B.__name__\nprint(C().m())\n",
+    "class _D:\n    import string as __s\n    def __init__(self):\n        self.__x = self.__s.digits[:2]\n    def x(self):\n        def inner():\n            return self.__x\n        return inner()\nprint(_D().x())\n",
     # the same spelling N is a global read by a class-body lambda / generator in one program and a closure variable read by a
     # class-body lambda / generator in another (and both in one program): what one class learns must not reach another
     "N = 10\nclass Cfg:\n    scale = lambda self, v: v * N\n    sizes = tuple(N * i for i in (1, 2, 3))\nprint(Cfg().scale(2), Cfg.sizes)\n",
